@@ -114,19 +114,22 @@ def register(w):
     w.contract(BASE + "filenotfound", selfclass=["BaseGopherProtocol"] + GOPHER + ["GeminiProtocol", "SpartanProtocol"],
                params={"msg": "opt[str]"}, modifies=["self.wfile.written"], raises={"OSError": True},
                ensures=["implies(%s, self.wfile.written == old(self.wfile.written) + S.gopher_error(msg))" % NOFAULT,
-                        "self.wfile.written.startswith(old(self.wfile.written))"],
+                        "self.wfile.written.startswith(old(self.wfile.written))",
+                        "len(ghost.wfile_faults) == len(old(ghost.wfile_faults))", "len(ghost.log) == len(old(ghost.log))"],
                on_raise={"OSError": ["raised.from_wfile", "self.wfile.written.startswith(old(self.wfile.written))"]},
                props=hprops, **FAULT)
     w.contract(P + "gopherp.py::GopherPlusProtocol.filenotfound", selfclass=GPLUS,
                params={"msg": "opt[str]"}, modifies=["self.wfile.written"], raises={"OSError": True},
                ensures=["implies(%s, self.wfile.written == old(self.wfile.written) + S.gplus_error(%s, msg))" % (NOFAULT, ADMIN),
-                        "self.wfile.written.startswith(old(self.wfile.written))"],
+                        "self.wfile.written.startswith(old(self.wfile.written))",
+                        "len(ghost.wfile_faults) == len(old(ghost.wfile_faults))", "len(ghost.log) == len(old(ghost.log))"],
                on_raise={"OSError": ["raised.from_wfile", "self.wfile.written.startswith(old(self.wfile.written))"]},
                props=hprops, **FAULT)
     w.contract(P + "http.py::HTTPProtocol.filenotfound", selfclass=HTTP,
                params={"msg": "opt[str]"}, modifies=["self.wfile.written"], raises={"OSError": True, "AttributeError": "msg is None"},
                ensures=["implies(%s, self.wfile.written.startswith(old(self.wfile.written) + S.HTTP_404_HEAD))" % NOFAULT,
-                        "self.wfile.written.startswith(old(self.wfile.written))"],
+                        "self.wfile.written.startswith(old(self.wfile.written))",
+                        "len(ghost.wfile_faults) == len(old(ghost.wfile_faults))", "len(ghost.log) == len(old(ghost.log))"],
                on_raise={"OSError": ["raised.from_wfile", "self.wfile.written.startswith(old(self.wfile.written))"]},
                props=hprops + ["C13"], **FAULT)
     for mod, cls in (("gemini.py", "GeminiProtocol"), ("spartan.py", "SpartanProtocol")):
